@@ -48,8 +48,10 @@ Definition run_ionice (fixed : bool) (pid ioclass value : Z) : jv :=
   jv_cres (ionice_set_gen fixed pid ioclass value).
 
 Definition run_flags (flags : Z) : jv := JL (map (fun s => JC s []) (net_if_flags flags)).
+(* MAC text as psutil.net_if_addrs() shows it (C formatting, then the Python padding) and as the property demands *)
 Definition run_mac (data : bytes) : jv :=
-  JL [ jopt JB (mac_string (repeat 255 NI_MAXHOST) data); JB (spec_mac data) ].
+  JL [ jopt JB (option_map py_mac_pad (mac_string (repeat 255 NI_MAXHOST) data));
+       JB (spec_mac (data ++ repeat 0 (6 - length data))) ].
 
 (* ethtool answer (speed_hi, speed, duplex) -> [duplex constant; speed] or UB *)
 Definition run_speed (fixed : bool) (speed_hi speed duplex : Z) : jv :=
